@@ -1040,6 +1040,11 @@ func (env *SpecEnv) callExpr(e *SExpr) SVal {
 			vc.needBitLen, rs = true, sortBV(64)
 		case "exp256":
 			rs = sortBV(256)
+		case "needswrite":
+			vc.needNeedsWrite = true
+			if len(as) == 1 {
+				return SVal{T: mk("(needswrite "+as[0].S+")", sortBool), GoT: types.Typ[types.Bool]}
+			}
 		case "beval":
 			vc.needBytes, rs = true, sortInt
 		case "beenc":
